@@ -177,7 +177,10 @@ func parseString(path, content string, includeDirs []string) (*Thrift, error) {
 
 func (p *parser) parse() (err error) {
 	root := p.AST()
-	if root == nil || root.pegRule != ruleDocument {
+	if root == nil {
+		return nil // an empty document: no node at all
+	}
+	if root.pegRule != ruleDocument {
 		return errors.New("not document")
 	}
 	// Header* Definition* !.
